@@ -1,6 +1,7 @@
 //! `vh <prop> gen <seed> <tier>`  writes one case per line to stdout
 //! `vh <prop> run`                reads cases on stdin, runs the real library, one result line per case
 mod util;
+mod c01;
 mod c02;
 mod c03;
 mod c04;
@@ -35,6 +36,9 @@ fn main() {
     let seed: u64 = args.get(3).and_then(|s| s.parse().ok()).unwrap_or(1);
     let thorough = args.get(4).map(|s| s == "thorough").unwrap_or(false);
     match (prop, mode) {
+        ("c01", "gen") => c01::gen(seed, thorough),
+        ("c01", "run") => c01::run(),
+        ("c01", "child") => c01::child(&args[3], &args[4], args[5].parse().unwrap(), args[6] == "1"),
         ("c02", "gen") => c02::gen(seed, thorough),
         ("c02", "run") => c02::run(),
         ("c03", "gen") => c03::gen(seed, thorough),
